@@ -33,7 +33,7 @@ CHECK = {
          'and one removal. scripts: a case is one script (first load parked in the backing store x outcome ok|fail x 0..3 operations executed meanwhile x '
          'capacity x byte limit; the middle operations include "invalidate" = the channels of the model document change without a new revision/version and both its keys are removed), all scripts with <= 2 middle operations are enumerated, triples are sampled; distinct_nontrivial = distinct script '
          'shapes. invalidation: a case is one two-node database round (2..3 documents x 10 metadata-only channel updates with fresh channel names, 4..8 '
-         'concurrent readers on both nodes) plus 5 scripted histories (a reader parked right after its bucket read while the update is imported and passes the feed: GetActive x2 = read precedes the cache value, Get by revID x2 and Get by CV x1 = the invalidation arrives while the placeholder is loading). dbdiff: a case is one document history (3..8 revisions, attachments, tombstones, '
+         'concurrent readers on both nodes) plus 5 scripted histories (a reader parked right after its bucket read while the update is imported and passes the feed: GetActive x2 = read precedes the cache value, Get by revID x2 and Get by CV x1 = the invalidation arrives while the placeholder is loading) plus 2 scripted sequence-gap histories (the revision is resident on one or both nodes, a lower sequence is reserved and unused so both change caches park the update's mutation as pending, the reserved sequence is released and the pending mutation applied). dbdiff: a case is one document history (3..8 revisions, attachments, tombstones, '
          'expiry) followed by 4..10 reads with different options, each followed by a cached-vs-fresh comparison.',
  'parts': [
    {'name': 'stress', 'pkg': 'db', 'race': True, 'run': '^TestVerif_C16_Stress$', 'timeout_q': 400, 'timeout_t': 2400},
@@ -52,7 +52,7 @@ CHECK = {
    'mixed.peek_hit': 3000, 'mixed.returned_revisions_checked': 10061, 'mixed.bursts_writers_on_failing_docs': 24, 'mixed.quiescence_checks': 50,
    'scripts.quiescence_checks': 427, 'scripts.returned_revisions_checked': 739, 'scripts.scripts_placeholder_replaced_or_failed': 392,
    'scripts.scripts_with_invalidation_during_parked_load': 300,
-   'invalidation.scripted_histories_get-rev': 8, 'invalidation.scripted_histories_get-cv': 4, 'invalidation.scripted_histories_getactive': 8,
+   'invalidation.scripted_histories_get-rev': 8, 'invalidation.scripted_histories_get-cv': 4, 'invalidation.scripted_histories_getactive': 8, 'invalidation.scripted_histories_update-behind-sequence-gap': 8, 'invalidation.gap_script_reads_judged': 40,
    'invalidation.updates_seen_on_feed': 30, 'invalidation.reads_judged': 200, 'invalidation.reads_returning_latest_seen_update': 30, 'invalidation.scripted_histories': 4,
    'dbdiff.differential_comparisons': 682, 'dbdiff.cached_values_compared': 309, 'dbdiff.full_history_requests_checked': 48,
  },
